@@ -480,3 +480,23 @@ Qed.
 (* the binder set before cb95368 (F32): the plain positional parameters only *)
 Definition lam_bound_pinned (cls : string) (cs : list expr) : list string :=
   match lam_parts cls cs with Some (_, _, _, _, lv) => lv_args lv | None => [] end.
+
+(* ---------- F36: a helper whose source uses an assignment expression is not inlinable ---------- *)
+
+Theorem helper_with_walrus_by_name hce l : has_walrus l = true -> helper_capval hce l = CFun None.
+Proof. unfold helper_capval. intros ->. reflexivity. Qed.
+
+Theorem helper_without_walrus hce l :
+  has_walrus l = false ->
+  helper_capval hce l = match rewrite_captured hce l with Ok l' => CFun (Some l') | Err _ => CFun None end.
+Proof. unfold helper_capval. intros ->. reflexivity. Qed.
+
+(* so its calls stay calls by name, like those of any callable the snapshot marks as not inlinable ([CFun None]:
+   source not recovered, a bound method (F34), a callable with __wrapped__ (F35), a helper being expanded) *)
+Theorem walrus_helper_call_stays_by_name ce hce l h args kwn kwv e' :
+  lookup_var ce h = Some (helper_capval hce l) -> has_walrus l = true ->
+  parse_callable ce (Call (Name h) args kwn kwv) = Ok e' ->
+  exists args' kwv', e' = Call (Name h) args' kwn kwv' /\ length args' = length args /\ length kwv' = length kwv.
+Proof.
+  intros Hl Hw. apply call_stays_by_name. left. rewrite Hl, (helper_with_walrus_by_name hce l Hw). reflexivity.
+Qed.
